@@ -100,10 +100,10 @@ Definition first_subsection (g : graph) (s : step) : bool :=
 (* which classes can explain the failure of which sub-property *)
 Definition explain_C09 (p : N) : list N :=
   match p with
-  | 1%N => [10; 11]%N
+  | 1%N => []
   | 2%N => [13; 14]%N
-  | 3%N => [12; 13]%N
-  | 4%N => [12; 13; 14; 15; 17; 18; 19]%N
+  | 3%N => [13]%N
+  | 4%N => [13; 14; 15; 17; 18; 19]%N
   | 5%N => [13; 14; 17; 18; 19]%N
   | 6%N => [2; 13; 14]%N
   | 7%N => [2; 13; 14; 17; 18; 19]%N
@@ -128,9 +128,9 @@ Definition explain_C09 (p : N) : list N :=
    classes
    1 outside the reparse-safe text domain (text-level predicates not evaluated)
    2 the source note has front matter
-   10 the reference is dangling (no such note)
-   11 the reference is outside any section (inline as section has no section to put it in)
-   12 the reference points to its own note (the note is copied into itself and deleted)
+   (10, 11, 12 - dangling reference, reference outside any section, reference to the note itself -
+    were classes of the tree before the repair "do not offer to inline a reference that cannot be
+    inlined"; such an offer is now a correspondence failure and its resolution an unexcused one)
    13 sequential-key mode and more than one sub-section: one key for all new notes
    14 sequential-key mode and the key `keys+1` is already a note
    15 inline of a note from another directory that holds inline note links
@@ -149,11 +149,6 @@ Definition eval_act (c : actcase) (g : graph) (a : act_obs) : list N * list N :=
   let cls :=
     flag 1 (lib_dom lc) ++
     flag 2 (match src_meta with Some _ => false | None => true end) ++
-    flag 10 (negb ((Nat.eqb kind 3 || Nat.eqb kind 4) && match rk with Some k => negb (mem_str k keys) | None => false end)) ++
-    flag 11 (negb (Nat.eqb kind 3 && match target_tree g s with
-                                      | Some (t, id) => match get_surrounding_section_id id t with None => true | Some _ => false end
-                                      | None => false end)) ++
-    flag 12 (negb ((Nat.eqb kind 3 || Nat.eqb kind 4) && match rk with Some k => String.eqb k key | None => false end)) ++
     flag 13 (negb (ac_seq c && Nat.eqb kind 2 && Nat.ltb 1 (n_subsections g s))) ++
     flag 14 (negb (ac_seq c && (Nat.eqb kind 1 || Nat.eqb kind 2) && mem_str seq_key keys)) ++
     flag 15 (negb ((Nat.eqb kind 3 || Nat.eqb kind 4) &&
